@@ -784,11 +784,13 @@ def check_views(cls=None):
                 kw[f.name] = k if "int" in ann else ("" if "str" in ann else (raw if "bytes" in ann else None))
         return cl(**kw)
     mk_img = {c: (lambda k, c=c: mk_image(c, k)) for c in icls}
-    mk_el = {"PdfContent": lambda imgs, tabs, k: dt.PdfPage(text=f"p{k}", images=imgs, tables=tabs),
-             "PptxContent": lambda imgs, tabs, k: dt.PptxSlide(slide_number=k, images=imgs, tables=tabs),
-             "XlsxContent": lambda imgs, tabs, k: dt.XlsxSheet(name=f"S{k}", images=imgs, data=(tabs[0] if tabs else [])),
-             "OdpContent": lambda imgs, tabs, k: dt.OdpSlide(slide_number=k, images=imgs, tables=tabs),
-             "OdsContent": lambda imgs, tabs, k: dt.OdsSheet(name=f"S{k}", images=imgs, data=(tabs[0] if tabs else []))}
+    # elements of every shape: with text, with blank text, with no text at all (a page / slide / sheet that only carries pictures)
+    txt = lambda k: ("", "  \n", f"p{k}")[k % 3]
+    mk_el = {"PdfContent": lambda imgs, tabs, k: dt.PdfPage(text=txt(k), images=imgs, tables=tabs),
+             "PptxContent": lambda imgs, tabs, k: dt.PptxSlide(slide_number=k, images=imgs, tables=tabs, base_text=txt(k), text=txt(k)),
+             "XlsxContent": lambda imgs, tabs, k: dt.XlsxSheet(name=("" if k % 3 == 0 else f"S{k}"), text=txt(k), images=imgs, data=(tabs[0] if tabs else [])),
+             "OdpContent": lambda imgs, tabs, k: dt.OdpSlide(slide_number=k, images=imgs, tables=tabs, title=txt(k).strip()),
+             "OdsContent": lambda imgs, tabs, k: dt.OdsSheet(name=("" if k % 3 == 0 else f"S{k}"), text=txt(k), images=imgs, data=(tabs[0] if tabs else []))}
     field = {"PdfContent": "pages", "PptxContent": "slides", "XlsxContent": "sheets", "OdpContent": "slides", "OdsContent": "sheets"}
     for c in ([cls] if cls else list(flat) + ["PptContent"]):
         if c not in flat and c != "PptContent":
